@@ -20,7 +20,8 @@ FUNCTIONS = [(MOD, "AbstractModule._match"), (VEC, "AbstractVector._match"),
              (MOD, "AbstractModule.target_sequence"), (VEC, "AbstractVector.target_sequence"),
              (VEC, "AbstractVector.placeholder_sequence"), ("moclo/moclo/regex.py", "SeqMatch.group"),
              # the verdict and the spans come from the per-class pattern and the circular search
-             ("moclo/moclo/core/_structured.py", "StructuredRecord._get_regex"), ("moclo/moclo/core/_structured.py", "StructuredRecord._match"), ("moclo/moclo/regex.py", "DNARegex.search")]
+             ("moclo/moclo/core/_structured.py", "StructuredRecord._get_regex"), ("moclo/moclo/core/_structured.py", "StructuredRecord._match"), ("moclo/moclo/regex.py", "DNARegex.search"),
+             (MOD, "AbstractModule.structure"), (VEC, "AbstractVector.structure")]
 ASSUMES = ["D-RE", "D-RESTR", "D-CACHE", "D-SEQ", "D-REC-SLICE", "D-REC-ADD",
            "RE5 (adjacency): for a pattern of the shape F0(F1)(F2)(F3)F4 the spans of groups 1,2,3 are adjacent; a "
            "fixed-width flank/group occupies exactly its width (checked shape per literal, semantics of re assumed)",
